@@ -41,8 +41,9 @@ For each of A and B deliver, in `{wt}/_seed/A/` and `{wt}/_seed/B/`:
 
 How to run tests: `cd {wt} && /venv/bin/python -m pytest -q -p no:cacheprovider --timeout=900 -x tests/test_<name>.py` for the relevant files
 first; the whole suite (`/venv/bin/python -m pytest -q -p no:cacheprovider --timeout=900`, about 8 minutes, 349 pass / 36 fail on the
-unmodified tree) must be run at least once per change before you finish. Work on one change at a time: `git stash` / `git checkout -- data_algebra`
-between them so each patch is independent. Leave the worktree's tracked files unmodified at the end (the patches live in `_seed/`).
+unmodified tree) must be run at least once per change before you finish. Work on one change at a time: save it with `git diff > _seed/A/patch.diff`, then
+`git checkout -- data_algebra` before starting the next (re-apply with `git apply`), so each patch is independent. NEVER use `git stash`: the stash is shared
+with other worktrees of this repository that other people are using at the same time. Leave the worktree's tracked files unmodified at the end (the patches live in `_seed/`).
 No network is available. Do not commit.
 
 Already-failing tests on the unmodified tree (ignore): {', '.join(fail)}
